@@ -409,3 +409,98 @@ func (ps *parser) primary() Expr {
 	ps.fail("unexpected token " + t.s)
 	return nil
 }
+
+// exprKey renders an expression as a deterministic string (used to key values remembered per expression).
+func exprKey(e Expr) string {
+	switch x := e.(type) {
+	case nil:
+		return "_"
+	case *EIdent:
+		return x.Name
+	case *EInt:
+		return x.V
+	case *EStr:
+		return fmt.Sprintf("%q", x.V)
+	case *EBool:
+		return fmt.Sprint(x.V)
+	case *ENil:
+		return "nil"
+	case *EUnary:
+		return "(" + x.Op + exprKey(x.X) + ")"
+	case *EBinary:
+		return "(" + exprKey(x.X) + x.Op + exprKey(x.Y) + ")"
+	case *ECond:
+		return "(" + exprKey(x.C) + "?" + exprKey(x.A) + ":" + exprKey(x.B) + ")"
+	case *ECall:
+		s := exprKey(x.Fn) + "("
+		for i, a := range x.Args {
+			if i > 0 {
+				s += ","
+			}
+			s += exprKey(a)
+		}
+		return s + ")"
+	case *EIndex:
+		return exprKey(x.X) + "[" + exprKey(x.I) + "]"
+	case *ESlice:
+		if x.All {
+			return exprKey(x.X) + "[..]"
+		}
+		return exprKey(x.X) + "[" + exprKey(x.Lo) + ":" + exprKey(x.Hi) + "]"
+	case *ESel:
+		return exprKey(x.X) + "." + x.Name
+	case *EQuant:
+		s := "exists"
+		if x.Forall {
+			s = "forall"
+		}
+		for _, v := range x.Vars {
+			s += " " + v.Name + " " + v.Type
+		}
+		return "(" + s + "::" + exprKey(x.Body) + ")"
+	case *EOld:
+		return "old(" + exprKey(x.X) + ")"
+	}
+	return fmt.Sprintf("%T", e)
+}
+
+// walkExpr calls f on every node of e.
+func walkExpr(e Expr, f func(Expr)) {
+	if e == nil {
+		return
+	}
+	f(e)
+	switch x := e.(type) {
+	case *EUnary:
+		walkExpr(x.X, f)
+	case *EBinary:
+		walkExpr(x.X, f)
+		walkExpr(x.Y, f)
+	case *ECond:
+		walkExpr(x.C, f)
+		walkExpr(x.A, f)
+		walkExpr(x.B, f)
+	case *ECall:
+		walkExpr(x.Fn, f)
+		for _, a := range x.Args {
+			walkExpr(a, f)
+		}
+	case *EIndex:
+		walkExpr(x.X, f)
+		walkExpr(x.I, f)
+	case *ESlice:
+		walkExpr(x.X, f)
+		if x.Lo != nil {
+			walkExpr(x.Lo, f)
+		}
+		if x.Hi != nil {
+			walkExpr(x.Hi, f)
+		}
+	case *ESel:
+		walkExpr(x.X, f)
+	case *EQuant:
+		walkExpr(x.Body, f)
+	case *EOld:
+		walkExpr(x.X, f)
+	}
+}
